@@ -22,6 +22,8 @@ RULE = ('Hypothesis draws the state dimension (1..3), snapshot count m (6..14), 
         'the HOCUR variant.')
 RULE += (' ' + 'Added classes: extra outputs ef_tf / st_tf, basis objects used before, coordinate-function bases on data of size 1e-9 ... 1e3, two amplitudes in one data matrix, binding rank caps for the HOCUR variant (judged by repeatability and batch == single only).')
 
+RULE += (' Added class: HOSVD threshold 10 % below the smallest non-zero singular-value ratio of the sweep (replayed in NumPy).')
+
 ASSUMPTIONS = [
     'oracle: numpy.linalg.svd / eig on the explicitly built transformed data matrix (c15.psi_ref)',
     'guard bands (cases discarded otherwise): no singular-value ratio of Psi_x within a factor 3 of the 1e-3 cut; no singular-value '
@@ -90,6 +92,8 @@ def amuset_case(draw):
     form = draw(c15.DATA_FORM if variant == 'hosvd' else st.sampled_from(['float', 'float', 'strided', 'fortran', 'readonly']))
     return {'d': d, 'm': m, 'phi': phi, 'pairs': pairs, 'seed': draw(gen.SEED), 'variant': variant,
             'threshold': draw(st.sampled_from([0, 1e-12, 1e-10])), 'as_list': draw(st.booleans()), 'data_form': form,
+            # HOSVD threshold 10 % below the smallest non-zero singular-value ratio of the sweep: cuts nothing but exact zeros
+            'tight_threshold': draw(st.sampled_from([False, False, False, True])),
             # the optional extra outputs of the HOSVD variant (eigenfunctions at the snapshots, singular tensors) must not change
             # the two documented ones
             'extras': draw(st.sampled_from(['none', 'none', 'ef', 'st', 'both'])),
@@ -180,6 +184,15 @@ def body(c):
         assume(r is not None and r[2] >= 2)
         refs.append(r)
     lab = {c['variant']}
+    if c.get('tight_threshold') and c['variant'] == 'hosvd':
+        # the ratios s/s[0] the left-to-right sweep of the routine sees (replayed in NumPy): a relative threshold 10 % below the smallest
+        # non-zero one removes nothing but exact zeros, so the reference (which only has the documented 1e-3 cut) is unchanged
+        from vt.props.c16 import local_ratios
+        ratios = np.concatenate(local_ratios(vals, m))
+        nz = ratios[ratios > 1e-12]
+        assume(len(nz) > 0 and nz.min() >= 1e-6)
+        c = dict(c, threshold=0.9 * float(nz.min()))
+        lab.add('threshold_just_below_smallest_ratio')
     pairs = c['pairs']
     X = [np.array(p[0], dtype=int) for p in pairs]
     Y = [(X[j] if p[2] == 'same_object' else np.array(p[1], dtype=int)) for j, p in enumerate(pairs)]
